@@ -90,10 +90,10 @@ ATOMS = {
                     build=lambda rso, e, pr: rso.entropy(e)),
     'expsum': dict(curv=1, kind='scalar', cone='X',
                    val=lambda u, pr: float(np.exp(u).sum()),
-                   build=lambda rso, e, pr: rso.exp(e).sum()),
+                   build=lambda rso, e, pr: _sum1d(rso.exp(e), e)),
     'logsum': dict(curv=-1, kind='scalar', cone='X', dom=lambda u, pr: np.all(u > 0),
                    val=lambda u, pr: float(np.log(np.maximum(u, 1e-300)).sum()),
-                   build=lambda rso, e, pr: rso.log(e).sum()),
+                   build=lambda rso, e, pr: _sum1d(rso.log(e), e)),
     'softplus': dict(curv=1, kind='elem', cone='X',
                      val=lambda u, pr: np.logaddexp(0, u),
                      build=lambda rso, e, pr: rso.softplus(e)),
@@ -157,6 +157,17 @@ def in_domain(atom, u, params):
 
 def value(atom, u, params):
     return ATOMS[atom]['val'](np.asarray(u, float), params)
+
+
+def _sum1d(cvx, e):
+    """Sum of an element-wise exp/log over its (1-D) argument, written as .sum(), .sum(axis=0)
+    or .sum(axis=-1) - the spelling follows the size of the argument so that a replay repeats
+    it."""
+    n = int(getattr(e, 'size', 1))
+    k = (n - 2) % 3                     # sizes 2, 5, ..: axis=0; 3, 6, ..: plain; 4, 7, ..: axis=-1
+    if len(getattr(e, 'shape', (1,))) != 1 or n < 2 or k == 1:
+        return cvx.sum()
+    return cvx.sum(axis=0) if k == 0 else cvx.sum(axis=-1)
 
 
 def build(atom, rso, e, params):
